@@ -116,9 +116,10 @@ class Check:
         path = None
         doc = None
         if len(self.violations) < 20:
-            os.makedirs(REPLAY_DIR, exist_ok=True)
+            rdir = REPLAY_DIR if not os.environ.get("VERIF_NO_EVIDENCE") else os.path.join("/tmp", "verif-scratch-replays")
+            os.makedirs(rdir, exist_ok=True)
             h = hashlib.sha256(json.dumps(replay, sort_keys=True, default=str).encode()).hexdigest()[:10]
-            path = os.path.join(REPLAY_DIR, "%s-%s-%s.json" % (self.prop, self.seed, h))
+            path = os.path.join(rdir, "%s-%s-%s.json" % (self.prop, self.seed, h))
             doc = {"format": 1, "property": self.prop, "clause": clause, "attrs": attrs, "what": what}
             doc.update(replay)
             with open(path, "w") as f:
@@ -195,11 +196,15 @@ class Check:
             "coverage": cov, "assumptions": self.assumptions, "wall_s": round(wall, 2),
             "violations": len(self.violations),
         }
-        os.makedirs(EVIDENCE_DIR, exist_ok=True)
-        tmp = os.path.join(EVIDENCE_DIR, "%s.json.tmp" % self.prop)
+        evdir = EVIDENCE_DIR
+        if os.environ.get("VERIF_NO_EVIDENCE"):
+            # evaluation of a scratch tree (sensitivity runs): keep the committed evidence of /repo intact
+            evdir = os.path.join("/tmp", "verif-scratch-evidence")
+        os.makedirs(evdir, exist_ok=True)
+        tmp = os.path.join(evdir, "%s.json.tmp" % self.prop)
         with open(tmp, "w") as f:
             json.dump(ev, f, indent=1, default=str)
-        os.replace(tmp, os.path.join(EVIDENCE_DIR, "%s.json" % self.prop))
+        os.replace(tmp, os.path.join(evdir, "%s.json" % self.prop))
         for k, v in self.known_hits.items():
             print("KNOWN-FINDING: property=%s %s (hit %d times; e.g. %s)" % (
                 self.prop, v["entry"].get("what", k), v["count"], str(v["example"])[:300]))
